@@ -41,7 +41,20 @@ VarCases ==
     \cup { MkF(Sin(<<Fdf("p", 0, U(8))>>), <<Fdf("a", 0, U(8)), Fdf("b", 1, t), Fdf("c", 2, U(8))>>, <<>>) : t \in VarT }
     \cup { MkF(Sin(<<Fdf("p", 0, U(8)), Fdf("q", 1, t)>>), <<Fdf("a", 0, U(8)), Fdf("b", 1, St("Sin"))>>, <<>>) : t \in VarT \ {Dyn(St("Sin"))} }
     \cup { MkF(Sin(<<Fdf("p", 0, U(8))>>), <<Fdf("a", 0, Arr(Opt(U(3)), 2))>>, <<>>) }
-FitCases == SizeCases \cup VarCases \cup ArrayCases
+(* the same sizes with per-signal options on the fields that cross the limit: a big-endian signal is described from its most
+   significant byte, a size test that looks at start bits only sees nothing past bit 63 *)
+BindS(sigs) == [Bind(<<>>) EXCEPT !.signals = sigs]
+Big(n) == [name |-> n, fields |-> <<[name |-> "endianess", value |-> [s |-> "big"]]>>]
+MkFS(fields, sigs) == [MkF(<<>>, fields, <<>>) EXCEPT !.impls = <<BindS(sigs)>>]
+OptionCases ==
+    { MkFS(<<Fdf("a", 0, U(32)), Fdf("b", 1, U(16)), Fdf("c", 2, U(w))>>, <<Big("c")>>) : w \in {16, 32, 64} }          \* 64 (fits), 80, 112
+    \cup { MkFS(<<Fdf("a", 0, U(32)), Fdf("b", 1, U(w))>>, <<Big("b")>>) : w \in {32, 64} }
+    \cup { MkFS(<<Fdf("a", 0, U(32)), Fdf("b", 1, U(16)), Fdf("c", 2, U(32))>>, <<Big("a"), Big("b"), Big("c")>>),
+            MkFS(<<Fdf("a", 0, U(56)), Fdf("b", 1, U(16))>>, <<Big("b")>>),
+            MkFS(<<Fdf("a", 0, U(48)), Fdf("b", 1, I(32))>>, <<Big("b")>>),
+            MkFS(<<Fdf("a", 0, U(32)), Fdf("b", 1, U(8)), Fdf("c", 2, U(32))>>,
+                 << [name |-> "c", fields |-> <<[name |-> "mux_count", value |-> [i |-> 4]], [name |-> "mux_signal", value |-> [s |-> "b"]]>>] >>) }
+FitCases == SizeCases \cup VarCases \cup ArrayCases \cup OptionCases
 
 VARIABLES stage, S
 vars == <<stage, S>>
